@@ -28,7 +28,6 @@ from .index import (
     module_of,
     norm,
     parent,
-    short,
     walk_local,
 )
 
@@ -172,6 +171,8 @@ def write_kind(call: ast.Call) -> Optional[str]:
     if name in TEMP_CREATORS:
         return name
     if name in MOVERS or name in SHUTIL_WRITERS or name in OS_WRITERS:
+        return name
+    if name.startswith("logging.") and (name.endswith("FileHandler") or (name == "logging.basicConfig" and kwarg(call, "filename") is not None)):
         return name
     if isinstance(call.func, ast.Attribute):
         la = call.func.attr
